@@ -296,3 +296,92 @@ def fam_subst_random(rng, count, maxn=8, offsets=(0, 2, 4, 5, 6, 10, 11, 12, 13)
         off = rng.choice(offsets)
         out.append(("subr%d" % k, subst_program(n, kinds, mp, off), [[]]))
     return out
+
+
+# ---------------------------------------------------------------- F7: mutator histories of the allocator design model (C09/C10)
+def history_program(hist):
+    """hist: list of [action, a, b, c] as printed by spec/MC_Heap.tla (let k moved atEnd | dup i | drop i | switch i).
+    The environment of the linear program mirrors the design model's variable list exactly."""
+    types = [{"name": "_Cont", "xtors": [{"name": "Ret", "args": [{"id": 0, "name": "x", "chi": "ext", "ty": "i64"}]}]}]
+    tnames = {}
+
+    def type_for(sig):   # sig: tuple of field type names ("i64" or an object type)
+        if sig not in tnames:
+            nm = "O%d" % len(tnames)
+            tnames[sig] = nm
+            types.append({"name": nm, "xtors": [{"name": "K" + nm, "args": [
+                {"id": 0, "name": "f%d" % j, "chi": "ext" if t == "i64" else "prd", "ty": t} for j, t in enumerate(sig)]}]})
+        return tnames[sig]
+    b = LB(0, types=types)
+    # model variables: list of dicts {var, sig} in the order of the design model's `vars`
+    mv = []
+    for act, x, ms, at_end in hist:
+        if act == "let":
+            k = x
+            moved = [mv[i - 1] for i in ms]
+            rest = [v for j, v in enumerate(mv, 1) if j not in ms]
+            n = len(moved)
+            ints = [b.lit(7 + j, "n") for j in range(k - n)]
+            intvars = [{"var": v, "sig": None} for v in ints]
+            fields = (intvars + moved) if at_end else (moved + intvars)
+            # bring the environment into the order: rest, then the fields
+            b.substitute([r["var"] for r in rest] + [f["var"] for f in fields])
+            newenv = list(b.env)
+            for r, nv in zip(rest, newenv[:len(rest)]):
+                r["var"] = nv
+            sig = tuple("i64" if f["sig"] is None else f["tyname"] for f in fields)
+            ty = type_for(sig)
+            v = b.let(ty, "K" + ty, k)
+            mv = rest + [{"var": v, "sig": sig, "tyname": ty, "fields": [dict(f) for f in fields]}]
+        elif act == "dup":
+            src = mv[x - 1]
+            b.substitute([m["var"] for m in mv] + [src["var"]])
+            for m, nv in zip(mv, b.env):
+                m["var"] = nv
+            cp = dict(src)
+            cp["var"] = b.env[-1]
+            mv = mv + [cp]
+        elif act == "drop":
+            keep = [m for j, m in enumerate(mv, 1) if j != x]
+            b.substitute([m["var"] for m in keep])
+            for m, nv in zip(keep, b.env):
+                m["var"] = nv
+            mv = keep
+        elif act == "switch":
+            tgt = mv[x - 1]
+            rest = [m for j, m in enumerate(mv, 1) if j != x]
+            b.substitute([m["var"] for m in rest] + [tgt["var"]])
+            for m, nv in zip(rest, b.env):
+                m["var"] = nv
+            scrut = b.env[-1]
+            binders = []
+            loaded = []
+            for f in tgt["fields"]:
+                if f["sig"] is None:
+                    nv = b.fresh("g", "ext", "i64")
+                    loaded.append({"var": nv, "sig": None})
+                else:
+                    nv = b.fresh("h", "prd", f["tyname"])
+                    cp = dict(f)
+                    cp["var"] = nv
+                    loaded.append(cp)
+                binders.append(nv)
+            # the rest of the program continues inside the single clause
+            b.stmts.append({"k": "switch", "var": scrut["id"], "ty": tgt["tyname"], "clause_xtor": "K" + tgt["tyname"], "binders": binders})
+            b.env = b.env[:-1] + binders
+            mv = rest + loaded
+        else:
+            raise ValueError(act)
+    z = b.lit(0, "z")
+    # fold: statements after a `switch` live in its clause body
+    node = b.push({"k": "exit", "var": z["id"]})
+    for st in reversed(b.stmts):
+        st = dict(st)
+        if st["k"] == "switch":
+            node = b.push({"k": "switch", "var": st["var"], "ty": st["ty"],
+                           "clauses": [{"xtor": st["clause_xtor"], "ctx": st["binders"], "body": node}]})
+        else:
+            st["next"] = node
+            node = b.push(st)
+    b.stmts = []
+    return {"defs": [{"name": "main", "ctx": [], "body": node}], "types": types, "nodes": b.nodes, "max_id": b.next_id}
